@@ -85,6 +85,16 @@ theorem natIdx_int (i : Int) (h : 0 ≤ i) : natIdx (pint i) = .ok i.toNat := by
   have h' : ¬ i < 0 := by omega
   simp [natIdx, asInt, Sc.isInt, Sc.intVal, PyVal.isInt, PyVal.intVal, h']
 
+theorem natIdx_nat (n : Nat) : natIdx (pint n) = .ok n := by
+  rw [natIdx_int _ (Int.natCast_nonneg _), Int.toNat_natCast]
+theorem natIdx_0 : natIdx (pint 0) = .ok 0 := natIdx_nat 0
+theorem natIdx_1 : natIdx (pint 1) = .ok 1 := natIdx_nat 1
+theorem natIdx_2 : natIdx (pint 2) = .ok 2 := natIdx_nat 2
+theorem natIdx_3 : natIdx (pint 3) = .ok 3 := natIdx_nat 3
+theorem natIdx_4 : natIdx (pint 4) = .ok 4 := natIdx_nat 4
+theorem natIdx_5 : natIdx (pint 5) = .ok 5 := natIdx_nat 5
+theorem natIdx_6 : natIdx (pint 6) = .ok 6 := natIdx_nat 6
+
 /-- `b[k]` in bounds -/
 theorem index_ok (b : Bytes) (k : Nat) (hk : k < b.length) :
     (if h : k < b.length then (Except.ok (pint ((b[k]'h).toNat : Nat)) : Except PErr PV) else .error (.exc .IndexError))
@@ -130,7 +140,7 @@ theorem execBlock_single (M : Meths) (env : Env) (s : PStmt) : execBlock M env (
 macro "pdu_eval" "[" ts:Lean.Parser.Tactic.simpLemma,* "]" : tactic =>
   `(tactic| simp (disch := omega) only [↓execBlock_single, decide_true, decide_false, execBlock, execStmt, eval, evalArgs, ok_bind, error_bind, set_apply, String.reduceEq,
       ↓reduceIte, cmp_lt_pint, cmp_gt_pint, cmp_le_pint, cmp_ge_pint, cmp_eq_pint, cmp_ne_pint, bi_len, bi_int, bi_bytes0,
-      bi_max8, bi_min_sub, natIdx_int, index_ok, shr4_ev, band15_ev, shl_ev, bor_ev, truediv_ev, evalBinop_sub, raise_VE,
+      bi_max8, bi_min_sub, natIdx_nat, natIdx_0, natIdx_1, natIdx_2, natIdx_3, natIdx_4, natIdx_5, natIdx_6, index_ok, shr4_ev, band15_ev, shl_ev, bor_ev, truediv_ev, evalBinop_sub, raise_VE,
       float_beq_none, none_beq_none, ite_decide_pos, ite_decide_neg, ite_tt, ite_ff, truthy_pbool, Int.toNat_natCast,
       Int.reduceToNat, shl8_or, be32, $ts,*])
 
